@@ -29,7 +29,9 @@ LEVEL_TEXT = ("Proof: four children partition their parent (half-open, west/sout
               "longitude edges and the argument of the latitude chain are exact in binary64 for every zoom <= 40 by theorem; "
               "arbitrary user key lists: the first listed ancestor-or-self of the point's deepest key answers, cells listed "
               "after an ancestor are dead; get_bbox of every covering grid is the whole domain; save_quadtree/from_quadkeys "
-              "text round trip; origins located in their own cells.")
+              "text round trip; origins located in their own cells. Phase 2: get_masked (D42) is True exactly where no cell "
+              "contains the point, agrees with _find_location / get_index_of, and filter_spatial is the filter by 'is located' "
+              "(idempotent, order preserving, located indices unchanged).")
 LEVEL_NOTE = ("Theorems about the latitude are over the reals; the float evaluation of pi*x, sinh, atan, degrees by libm is not "
               "modelled beyond determinism (the float latitude of an edge is proved to depend on the dyadic coordinate only; "
               "strict monotonicity of the float edge table is re-checked every run; the Lean Float transcription of the formula "
@@ -64,7 +66,10 @@ THEOREMS = ["Quadtree.geo_membership", "Quadtree.lon_bounds_exact", "Quadtree.ro
             "Quadtree.lat_arg_depends_on_unit_coordinate", "Quadtree.quadkeys_text_roundtrip", "Quadtree.origin_own_cell",
             # arbitrary key sets, bounding box (Properties/C17_Keysets.lean)
             "Quadtree.inTile_iff_prefix_keyOf", "Quadtree.locate_first_prefix", "Quadtree.shadowed_cell_never_returned",
-            "Quadtree.bbox_of_cover", "Quadtree.bbox_from_catalog", "Quadtree.bbox_single_resolution"]
+            "Quadtree.bbox_of_cover", "Quadtree.bbox_from_catalog", "Quadtree.bbox_single_resolution",
+            # get_masked / filter_spatial on quadtree grids (D42; Properties/C17_Masked.lean)
+            "Quadtree.get_masked_spec", "Quadtree.get_masked_agrees_with_locate", "Quadtree.filter_spatial_eq_filter",
+            "Quadtree.filter_spatial_spec", "Quadtree.get_masked_from_catalog"]
 TRUSTED = ["Lean 4.33 kernel", "axioms: propext, Classical.choice, Quot.sound at most",
            "mercantile 1.2.1: quadkey_to_tile is the bit interleaving modelled by tileX/tileY; bounds().west/east equal "
            "-180+360*X/2^z exactly (checked on every tile of every generated grid); the latitude of a tile edge depends on "
@@ -91,7 +96,12 @@ RULE = ("grids: from_single_resolution(z) z=1..7 (8 in thorough), from_catalog o
         "bounds + cell areas recomputed by the code-shaped Lean Float functions (40 sampled cells); key sets containing the "
         "root key '' and constructors called with magnitudes= / name=; geographical_area_from_bounds on 400 (4000) ordered "
         "bounds: degenerate (equal longitudes / latitudes), polar, 1e-6 degree cells, Mercator tiles of zoom 1..14, full "
-        "longitude span")
+        "longitude span; get_masked (list / ndarray / scalar) and catalog.filter_spatial(region, in_place both ways) on the "
+        "query batches incl. NaN / infinite coordinates; sessions of 14 (30) random public calls on ONE region object "
+        "(lookups as float / int / arrays, get_masked, get_cartesian, get_bbox, get_cell_area, origins, midpoints, to_dict, "
+        "get_location_of, interleaved with in-place edits by the caller of the arrays / dictionaries handed out earlier), every "
+        "step compared with what a fresh region answers, bounds / quadkeys unchanged at the end; one (three) grids of more than "
+        "2^16 cells with queries in cells of index > 65535; from_catalog with the default zoom (argument not passed)")
 
 R_KM = 6371.0
 LATMAX = 85.0511287798066
@@ -141,7 +151,10 @@ def to_unit(lon, lat, D):
     """exact unit-square coordinates handed to the model: x = (lon+180)/360 exactly; y = a representative of the
     depth-D row the latitude falls in (south edge inclusive), 0/-1 north of the limit, 2 south of it"""
     E, negE = edges(D)
-    x = (Fraction(float(lon)) + 180) / 360
+    lon = float(lon)
+    if lon != lon or lon in (math.inf, -math.inf):
+        return Fraction(5), Fraction(3)        # NaN / infinite longitude: every comparison is False, in no cell
+    x = (Fraction(lon) + 180) / 360
     lat = float(lat)
     n = 1 << D
     if lat != lat:
@@ -197,9 +210,15 @@ def _build(kind, params):
         ev = [(float.fromhex(a), float.fromhex(b)) for a, b in params["events"]]
         cat = CSEPCatalog(data=[(str(i), 1000 * i, la, lo, 5.0, 4.0) for i, (lo, la) in enumerate(ev)],
                           compute_stats=False)
-        r = regions.QuadtreeGrid2D.from_catalog(cat, params["threshold"], zoom=params["zoom"], **kw)
+        if params["zoom"] is None:            # the documented default zoom=11
+            r = regions.QuadtreeGrid2D.from_catalog(cat, params["threshold"], **kw)
+        else:
+            r = regions.QuadtreeGrid2D.from_catalog(cat, params["threshold"], zoom=params["zoom"], **kw)
     elif kind == "quadkeys":
         r = regions.QuadtreeGrid2D.from_quadkeys(list(params["keys"]), **kw)
+    elif kind == "bigkeys":
+        import random
+        r = regions.QuadtreeGrid2D.from_quadkeys(numpy.array(big_keyset(random.Random(params["seed"]))))
     elif kind == "california":
         r = regions.california_quadtree_region()
     else:
@@ -289,8 +308,11 @@ def check_queries(run, drv, pend, g, pts, partition_expected, prefix_free, tag):
     for lon, lat in pts:
         x, y = to_unit(lon, lat, g.D)
         units.append((x, y))
-        got = r.get_index_of(float(lon), float(lat))
-        got_i = None if isinstance(got, numpy.ndarray) and got.size == 0 else int(got)
+        got_i = _loc(r, lon, lat)
+        if isinstance(got_i, str):
+            run.oracle_failure(_case(g, check="query", point=[hexs(lon), hexs(lat)], tag=tag),
+                               f"get_index_of({lon!r},{lat!r}) returned {got_i}: neither a cell index nor the empty array")
+            got_i = None
         impl.append(got_i)
         dk = unit_key(x, y, g.D)
         n = 1 << g.D
@@ -323,8 +345,11 @@ def check_queries(run, drv, pend, g, pts, partition_expected, prefix_free, tag):
                                f"brute force on bounds {brute}")
         run.count("located" if got_i is not None else "no-cell")
     # array form drops unlocated points
-    arr = r.get_index_of([float(p[0]) for p in pts], [float(p[1]) for p in pts])
-    arr = [int(v) for v in numpy.asarray(arr).tolist()]
+    try:
+        arr = r.get_index_of([float(p[0]) for p in pts], [float(p[1]) for p in pts])
+        arr = [int(v) for v in numpy.asarray(arr).ravel().tolist()]
+    except Exception as ex:
+        arr = [f"E:{type(ex).__name__}"]
     if arr != [i for i in impl if i is not None]:
         run.oracle_failure(_case(g, check="query-array", points=[[hexs(a), hexs(c)] for a, c in pts][:50], tag=tag),
                            "array get_index_of differs from the scalar results with unlocated points dropped")
@@ -336,6 +361,79 @@ def check_queries(run, drv, pend, g, pts, partition_expected, prefix_free, tag):
     ks = ",".join(keys) if keys else "-"
     pend.append(("locate", g, case, drv.ask(f"c17_locate {ks} {pts_arg(units)}"), impl))
     pend.append(("getindex", g, case, drv.ask(f"c17_getindex {ks} {pts_arg(units)}"), arr))
+    check_masked(run, drv, pend, g, pts, units, impl, tag, with_catalog=(tag in ("batch0", "events", "replay", "big")))
+
+
+def _loc(r, lon, lat, as_int=False):
+    """scalar get_index_of, canonical: cell index, None (empty array = no cell) or 'BAD:…' for anything else"""
+    try:
+        got = r.get_index_of(int(lon), int(lat)) if as_int else r.get_index_of(float(lon), float(lat))
+    except Exception as ex:
+        return f"BAD:{type(ex).__name__}"
+    if isinstance(got, numpy.ndarray) and got.size == 0:
+        return None
+    try:
+        if numpy.size(got) == 1 and int(got) == got and not isinstance(got, (bool, numpy.bool_)):
+            return int(got)
+    except Exception:
+        pass
+    return f"BAD:{got!r}"[:60]
+
+
+def check_masked(run, drv, pend, g, pts, units, located, tag, with_catalog):
+    """QuadtreeGrid2D.get_masked (regions.py:1106, D42) and catalog.filter_spatial on the same points: True exactly where
+    get_index_of finds no cell; list / ndarray / scalar arguments; filter_spatial keeps exactly the located events, in order"""
+    r = g.region
+    case = _case(g, check="masked", points=[[hexs(a), hexs(c)] for a, c in pts], tag=tag)
+    want = [v is None for v in located]
+    lons, lats = [float(p[0]) for p in pts], [float(p[1]) for p in pts]
+    forms = {"list": (lons, lats), "ndarray": (numpy.array(lons), numpy.array(lats))}
+    impl = None
+    for form, (a, c) in forms.items():
+        try:
+            m = r.get_masked(a, c)
+            got = [bool(v) for v in numpy.asarray(m).ravel().tolist()]
+            if numpy.asarray(m).dtype != bool:
+                got = f"dtype {numpy.asarray(m).dtype}"
+        except Exception as ex:
+            got = f"E:{type(ex).__name__}"
+        if got != want:
+            run.oracle_failure(dict(case, form=form), f"get_masked({form}) = {str(got)[:120]}, but get_index_of finds a cell exactly for "
+                                                      f"{[not w for w in want][:40]} (masked must be True exactly where no cell contains the point)")
+        impl = got if impl is None else impl
+    if pts:
+        j = len(pts) // 2
+        try:
+            got = [bool(v) for v in numpy.asarray(r.get_masked(lons[j], lats[j])).ravel().tolist()]
+        except Exception as ex:
+            got = f"E:{type(ex).__name__}"
+        if got != [want[j]]:
+            run.oracle_failure(dict(case, form="scalar", index=j), f"get_masked(scalar) = {got}, expected {[want[j]]}")
+    run.count("masked")
+    ks = ",".join(g.keys) if g.keys else "-"
+    pend.append(("masked", g, dict(case, op="c17_masked"), drv.ask(f"c17_masked {ks} {pts_arg(units)}"), want if isinstance(impl, str) else impl))
+    if not with_catalog or not pts:
+        return
+    # catalog.filter_spatial(region): the located events survive, in catalog order; in_place both ways
+    from csep.core.catalogs import CSEPCatalog
+    fin = [i for i, (lo, la) in enumerate(pts) if lo == lo and la == la]      # a catalog row needs numbers
+    keep = [i for i in fin if located[i] is not None]
+    for in_place in (True, False):
+        try:
+            cat = CSEPCatalog(data=[(str(i), 1000 * i, lats[i], lons[i], 5.0, 4.0) for i in fin], compute_stats=False)
+            out = cat.filter_spatial(r, in_place=in_place)
+            ids = [int(v.decode() if isinstance(v, bytes) else v) for v in out.get_event_ids()]
+            n_src = cat.event_count
+        except Exception as ex:
+            ids, n_src = f"E:{type(ex).__name__}: {ex}"[:100], None
+        if ids != keep:
+            run.oracle_failure(dict(case, in_place=in_place), f"filter_spatial(in_place={in_place}) keeps events {str(ids)[:120]}, the events "
+                                                              f"lying in a cell are {keep[:40]}")
+        elif not in_place and n_src != len(fin):
+            run.oracle_failure(dict(case, in_place=False), "filter_spatial(in_place=False) changed the catalog it was called on")
+    run.count("filter_spatial")
+    pend.append(("filterspatial", g, dict(case, op="c17_filterspatial"),
+                 drv.ask(f"c17_filterspatial {ks} {pts_arg([units[i] for i in fin])}"), [fin.index(i) for i in keep]))
 
 
 def _pkey(g):
@@ -346,6 +444,8 @@ def _pkey(g):
         return (p["threshold"], p["zoom"], tuple(map(tuple, p["events"][:6])), len(p["events"]))
     if g.kind == "quadkeys":
         return tuple(p["keys"][:12]) + (len(p["keys"]),)
+    if g.kind == "bigkeys":
+        return ("bigkeys", p["seed"])
     return ("california",)
 
 
@@ -353,7 +453,7 @@ def check_refinement(run, drv, pend, g):
     """from_catalog: recount, leaf bound, no needless split; model leaves + counts"""
     from csep.core import regions
     p = g.params
-    thr, zoom = p["threshold"], p["zoom"]
+    thr, zoom = p["threshold"], (p["zoom"] if p["zoom"] is not None else 11)
     ev = [(float.fromhex(a), float.fromhex(b)) for a, b in p["events"]]
     D = max(zoom, 1)
     check_edge_tables(run, D)
@@ -381,14 +481,21 @@ def check_refinement(run, drv, pend, g):
     lon = numpy.array([e[0] for e in ev], dtype=float)
     lat = numpy.array([e[1] for e in ev], dtype=float)
     qk, num = [], []
-    for root in "0123":
-        regions._create_tile(root, thr, zoom, lon, lat, qk, num)
-    if [str(k) for k in qk] != keys:
+    try:                              # private helper: used when it is there with this signature, never required
+        for root in "0123":
+            regions._create_tile(root, thr, zoom, lon, lat, qk, num)
+        qk, num = [str(k) for k in qk], [int(v) for v in num]
+        if len(qk) != len(num):
+            raise ValueError("qk / num lengths differ")
+    except Exception as ex:
+        run.count(f"private-helper-unavailable:{type(ex).__name__}")
+        qk, num = list(keys), [cnt(k) for k in keys]
+    if qk != keys:
         run.oracle_failure(case, "from_catalog and _create_tile disagree on the leaf list")
-    if [int(v) for v in num] != [cnt(k) for k in qk]:
-        run.oracle_failure(dict(case, num=[int(v) for v in num][:40]), "recorded leaf counts differ from an exact recount")
+    if num != [cnt(k) for k in qk]:
+        run.oracle_failure(dict(case, num=num[:40]), "recorded leaf counts differ from an exact recount")
     inside = sum(1 for d in dkeys if d is not None)
-    if sum(int(v) for v in num) != inside:
+    if sum(num) != inside:
         run.oracle_failure(case, "leaf counts do not add up to the number of events inside the domain")
     kinds = set()
     for (x, y) in units:
@@ -735,6 +842,221 @@ def check_geoarea(run, drv, pend, rng, n, args=None):
         pend.append(("geoarea", None, case, drv.ask("c17_geoarea " + " ".join(bits(v) for v in a)), (got, a)))
 
 
+def _brute_cartesian(b, data):
+    xs = sorted(set(b[:, 0].tolist()))
+    ys = sorted(set(b[:, 1].tolist()))
+    out = []
+    for y in ys:
+        row = []
+        for x in xs:
+            inside = numpy.nonzero((b[:, 0] <= x) & (x < b[:, 2]) & (b[:, 1] <= y) & (y < b[:, 3]))[0]
+            row.append(float(data[int(inside[0])]) if inside.size else None)
+        out.append(row)
+    return out
+
+
+SESSION_OPS = ("index", "index_int", "index_array", "masked", "cartesian", "bbox", "area", "origins", "midpoints", "to_dict",
+               "location_of", "edit_area", "edit_cartesian", "edit_dict", "edit_origins", "edit_index_array")
+
+
+def check_session(run, drv, pend, g, rng, steps, ops=None):
+    """HISTORIES ON ONE REGION OBJECT: a random sequence of public calls (lookups in every argument form, get_masked,
+    get_cartesian, get_bbox, get_cell_area, origins, midpoints, to_dict, get_location_of) interleaved with in-place edits BY
+    THE CALLER of the arrays / dictionaries the region handed out earlier.  After EVERY step the result is compared with the
+    expectation recomputed from the bounds snapshot taken when the region was fresh (what a fresh region answers), and at the
+    end the region's bounds / quadkeys must be unchanged.  `ops` (replay) fixes the sequence."""
+    import contextlib
+    import io
+    r, keys = g.region, g.keys
+    n = len(keys)
+    if n == 0 or n > 400:
+        return
+    b0 = numpy.array(r.bounds, dtype=float, copy=True)
+    k0 = list(keys)
+    try:
+        fresh = _build(g.kind, g.params).region
+        area0 = numpy.array(fresh.get_cell_area(), dtype=float, copy=True)
+        mid0 = numpy.array(fresh.midpoints(), dtype=float, copy=True)
+    except Exception as ex:
+        run.mismatch(_case(g, check="session"), f"{type(ex).__name__}: {ex}", "a second region from the same arguments")
+        return
+    gaps = None
+    held = {}
+    seq = []
+    if ops is None:
+        ops = [rng.choice(SESSION_OPS) for _ in range(steps)]
+        pts_src = [tuple(p) for k in (rng.sample(keys, min(n, 6))) for h in ("corners", "mid") for p in tile_points(rng, k, g.D, h)]
+        pts_src += [(180.0, 0.0), (0.0, 89.0), (float("nan"), 1.0)]
+        plan = [(op, [rng.choice(pts_src) for _ in range(rng.randint(1, 5))], rng.randrange(1 << 30)) for op in ops]
+    else:
+        plan = [(op, [tuple(float.fromhex(v) for v in q) for q in pts], sd) for op, pts, sd in ops]
+
+    def fail(i, what):
+        case = _case(g, check="session", ops=[[op, [[hexs(a), hexs(c)] for a, c in pts], sd] for op, pts, sd in plan[:i + 1]])
+        run.oracle_failure(case, f"step {i} ({plan[i][0]}) after {[q[0] for q in plan[:i]]}: {what}")
+
+    for i, (op, pts, sd) in enumerate(plan):
+        try:
+            with contextlib.redirect_stdout(io.StringIO()):
+                if op in ("index", "index_int"):
+                    for lon, lat in pts:
+                        if op == "index_int":
+                            if not (lon == lon and lat == lat and abs(lon) < 1e9 and abs(lat) < 1e9):
+                                continue
+                            lon, lat = float(int(lon)), float(int(lat))
+                        got = _loc(r, lon, lat, as_int=(op == "index_int"))
+                        exp = _expected_cell(b0, lon, lat)
+                        if got != exp:
+                            fail(i, f"get_index_of({lon!r},{lat!r}) = {got}, a fresh region gives {exp}")
+                elif op in ("index_array", "edit_index_array"):
+                    lons, lats = numpy.array([q[0] for q in pts]), numpy.array([q[1] for q in pts])
+                    got = r.get_index_of(lons, lats)
+                    exp = [v for v in (_expected_cell(b0, lo, la) for lo, la in pts) if v is not None]
+                    if [int(v) for v in numpy.asarray(got).ravel().tolist()] != exp:
+                        fail(i, f"get_index_of(arrays) = {numpy.asarray(got).tolist()}, a fresh region gives {exp}")
+                    if op == "edit_index_array" and isinstance(got, numpy.ndarray) and got.size:
+                        got[...] = 0                      # the caller scribbles over the returned index array
+                elif op == "masked":
+                    got = [bool(v) for v in numpy.asarray(r.get_masked([q[0] for q in pts], [q[1] for q in pts])).ravel().tolist()]
+                    exp = [_expected_cell(b0, lo, la) is None for lo, la in pts]
+                    if got != exp:
+                        fail(i, f"get_masked = {got}, a fresh region gives {exp}")
+                elif op in ("cartesian", "edit_cartesian"):
+                    data = numpy.random.default_rng(sd).uniform(1, 2, n)
+                    exp = _brute_cartesian(b0, data)
+                    has_gap = any(v is None for row in exp for v in row)
+                    try:
+                        got = numpy.asarray(r.get_cartesian(data), dtype=float)
+                        if has_gap or got.tolist() != exp:
+                            fail(i, "get_cartesian differs from the values of the cells containing the lattice points")
+                        if op == "edit_cartesian":
+                            got[...] = -1.0               # the caller overwrites the returned grid
+                            held["cart"] = got
+                    except ValueError:
+                        if not has_gap:
+                            fail(i, "get_cartesian raised ValueError although every lattice point lies in a cell")
+                elif op == "bbox":
+                    got = [float(v) for v in r.get_bbox()]
+                    exp = [float(b0[:, 0].min()), float(b0[:, 2].max()), float(b0[:, 1].min()), float(b0[:, 3].max())]
+                    if got != exp:
+                        fail(i, f"get_bbox = {got}, a fresh region gives {exp}")
+                elif op in ("area", "edit_area"):
+                    got = r.get_cell_area()
+                    if not numpy.array_equal(numpy.asarray(got, dtype=float), area0):
+                        fail(i, "get_cell_area differs from what a fresh region returns")
+                    if op == "edit_area" and isinstance(got, numpy.ndarray) and got.size:
+                        got[...] = 0.0                    # the caller zeroes the returned array (it aliases region.cell_area)
+                elif op in ("origins", "edit_origins"):
+                    got = r.origins()
+                    if not numpy.array_equal(numpy.asarray(got, dtype=float), b0[:, :2]):
+                        fail(i, "origins() differs from the (west, south) corners of a fresh region")
+                    if op == "edit_origins" and isinstance(got, numpy.ndarray) and got.size:
+                        got[...] = 0.0
+                elif op == "midpoints":
+                    if not numpy.array_equal(numpy.asarray(r.midpoints(), dtype=float), mid0):
+                        fail(i, "midpoints() differs from what a fresh region returns")
+                elif op in ("to_dict", "edit_dict"):
+                    d = r.to_dict()
+                    if [(q["lon"], q["lat"]) for q in d["polygons"]] != [(float(v[0]), float(v[1])) for v in b0[:, :2]]:
+                        fail(i, "to_dict()['polygons'] differs from the (west, south) corners of a fresh region")
+                    if op == "edit_dict":                 # the caller derives a shifted twin from the dictionary in place
+                        for q in d["polygons"]:
+                            q["lon"] += 1.0
+                            q["lat"] -= 1.0
+                        d["polygons"].reverse()
+                        d["name"] = "twin"
+                        held["dict"] = d
+                elif op == "location_of":
+                    idx = [numpy.random.default_rng(sd).integers(0, n) for _ in range(3)]
+                    got = [tuple(float(v) for v in q.origin) for q in r.get_location_of([int(v) for v in idx])]
+                    if got != [(float(b0[j, 0]), float(b0[j, 1])) for j in idx]:
+                        fail(i, "get_location_of returns polygons of other cells than a fresh region")
+        except Exception as ex:
+            fail(i, f"raised {type(ex).__name__}: {ex}")
+        seq.append(op)
+    if not numpy.array_equal(numpy.asarray(r.bounds, dtype=float), b0) or [str(k) for k in r.quadkeys] != k0:
+        case = _case(g, check="session", ops=[[op, [[hexs(a), hexs(c)] for a, c in pts], sd] for op, pts, sd in plan])
+        run.oracle_failure(case, f"the region's bounds / quadkeys changed during the read-only session {seq}")
+    run.count("session")
+    run.extra["session_steps"] = run.extra.get("session_steps", 0) + len(plan)
+    run.case(_case(g, check="session", nsteps=len(plan)) if n <= 64 else dict(kind=g.kind, check="session", ncells=n, nsteps=len(plan)),
+             ("session", g.kind, _pkey(g), tuple(seq)) if len(set(seq)) >= 4 else None)
+
+
+def guarded(run, g, what, fn, *a, **kw):
+    """a deviation of the implementation that makes a check routine itself fail (unexpected shape / type / exception) is a
+    reported difference with the grid as replay — never a harness crash"""
+    try:
+        return fn(*a, **kw)
+    except Exception as ex:
+        import traceback
+        tb = traceback.extract_tb(ex.__traceback__)[-1]
+        run.mismatch(_case(g, check=what), f"{type(ex).__name__}: {ex} (at {os.path.basename(tb.filename)}:{tb.lineno})"[:300],
+                     f"{what}: outputs of the expected shape and type")
+        return None
+
+
+def big_keyset(rng):
+    """more than 2^16 cells, not a multiple of 2^16: every zoom-8 tile, some of them replaced by their four children"""
+    keys = ["".join(str((i >> (2 * (7 - j))) & 3) for j in range(8)) for i in range(4 ** 8)]
+    split = set(rng.sample(range(len(keys)), rng.randint(700, 1500)))
+    out = []
+    for i, k in enumerate(keys):
+        if i in split:
+            out += [k + c for c in "0123"]
+        else:
+            out.append(k)
+    return out
+
+
+def check_big(run, drv, pend, rng, seed=None):
+    """SIZES: a grid of more than 65 536 cells (ndarray of keys through from_quadkeys); queries that land in cells with index
+    > 65 535 (scalar, list and ndarray forms, get_masked, filter_spatial); areas add up; bounding box"""
+    seed = rng.randrange(1 << 30) if seed is None else seed
+    g = _try_build(run, "bigkeys", dict(seed=seed))
+    if g is None:
+        return
+    run.count("grid-big")
+    run.extra["big_grid_cells"] = len(g.keys)
+    n = len(g.keys)
+    case = _case(g, check="big")
+    b = numpy.asarray(g.region.bounds, dtype=float)
+    if b.shape != (n, 4) or n <= 65536:
+        run.oracle_failure(case, f"a grid built from {n} distinct keys has bounds of shape {b.shape}")
+        return
+    import random
+    prng = random.Random(seed + 1)
+    hi = prng.sample(range(65536, n), 24) + [n - 1, 65536, 65535, 0]
+    pts = []
+    for i in hi:
+        pts += [(float(b[i, 0]), float(b[i, 1])), (float((b[i, 0] + b[i, 2]) / 2), float((b[i, 1] + b[i, 3]) / 2))]
+    pts += [(180.0, 0.0), (0.0, 86.0)]
+    guarded(run, g, "big", check_queries, run, drv, pend, g, pts, True, True, "big")
+    try:
+        area = numpy.asarray(g.region.get_cell_area(), dtype=float)
+        bb = [float(v) for v in g.region.get_bbox()]
+    except Exception as ex:
+        run.oracle_failure(case, f"get_cell_area / get_bbox raised {type(ex).__name__}: {ex}")
+        return
+    E, _ = edges(9)
+    band = 4 * math.pi * R_KM ** 2 * math.sin(math.radians(E[0]))
+    if area.shape != (n,) or not abs(math.fsum(area.tolist()) - band) <= 1e-9 * band:
+        run.oracle_failure(case, "cell areas of the > 2^16-cell grid do not add up to the band area")
+    if bb != [-180.0, 180.0, E[-1], E[0]]:
+        run.oracle_failure(case, f"bounding box of the > 2^16-cell covering grid is {bb}")
+    run.case(case, ("big", seed))
+
+
+def _try_build(run, kind, params):
+    """constructor failures are reported (replay = the construction parameters), not harness crashes"""
+    try:
+        return _build(kind, params)
+    except Exception as ex:
+        p = params if len(str(params)) < 4000 else {k: v for k, v in params.items() if k != "keys"}
+        run.oracle_failure(dict(kind=kind, params=params, check="build"),
+                           f"constructing the {kind} grid {str(p)[:200]} raised {type(ex).__name__}: {ex}")
+        return None
+
 def flush(run, drv, pend):
     out = drv.run()
     for what, g, case, i, impl in pend:
@@ -775,6 +1097,14 @@ def flush(run, drv, pend):
                     break
             if not ok:
                 run.mismatch(dict(case, op="c17_bounds"), [hexs(v) for v in impl[:4].ravel()], rows[:4])
+        elif what == "masked":
+            model = [] if o == "-" else [t == "1" for t in o.split(",")]
+            if model != impl:
+                run.mismatch(dict(case, op="c17_masked"), impl[:80], model[:80])
+        elif what == "filterspatial":
+            model = [] if o == "-" else (o if not o[0].isdigit() else [int(t) for t in o.split(",")])
+            if model != impl:
+                run.mismatch(dict(case, op="c17_filterspatial"), impl[:80], str(model)[:200])
         elif what == "origins":
             rows = [] if o == "-" else o.split(",")
             E, _ = edges(g.D)
@@ -866,6 +1196,8 @@ def special_points(rng, D):
         for lat in (top, bot, next_down(top), next_up(top), next_down(bot), next_up(bot), LATMAX, -LATMAX, 0.0, 86.0, -86.0,
                     90.0, -90.0, rng.uniform(-85, 85)):
             out.append((lon, lat))
+    nan = float("nan")
+    out += [(nan, 10.0), (10.0, nan), (nan, nan), (math.inf, 0.0), (0.0, math.inf), (-math.inf, -math.inf)]
     return out
 
 
@@ -958,15 +1290,17 @@ def gen_keyset(rng, nested=False):
 
 
 def run_grid(run, drv, pend, g, rng, budget, partition_expected, prefix_free=True, cart_limit=3e6):
-    check_structure(run, drv, pend, g, partition_expected)
-    check_order(run, drv, pend, g, rng, 12 if budget <= 300 else 24)
-    check_cartesian(run, drv, pend, g, partition_expected, prefix_free, cart_limit)
-    check_api(run, drv, pend, g, rng, prefix_free)
+    guarded(run, g, "structure", check_structure, run, drv, pend, g, partition_expected)
+    guarded(run, g, "order", check_order, run, drv, pend, g, rng, 12 if budget <= 300 else 24)
+    guarded(run, g, "cartesian", check_cartesian, run, drv, pend, g, partition_expected, prefix_free, cart_limit)
+    guarded(run, g, "api", check_api, run, drv, pend, g, rng, prefix_free)
     pts = gen_queries(rng, g, budget)
     # batches keep replays small
     B = 64
     for i in range(0, len(pts), B):
-        check_queries(run, drv, pend, g, pts[i:i + B], partition_expected, prefix_free, f"batch{i // B}")
+        guarded(run, g, "query", check_queries, run, drv, pend, g, pts[i:i + B], partition_expected, prefix_free, f"batch{i // B}")
+    # histories on this one region object, AFTER all the calls above (themselves a history)
+    guarded(run, g, "session", check_session, run, drv, pend, g, rng, 14 if budget <= 300 else 30)
 
 
 def run(run, rng, tier):
@@ -982,7 +1316,9 @@ def run(run, rng, tier):
                 replay(run, json.load(open(os.path.join(cdir, f))), _drv=(drv, pend))
     # 1. single resolution, all tiles
     for z in range(1, 9 if thorough else 8):
-        g = _build("single", dict(zoom=z, mags=True) if z % 3 == 2 else dict(zoom=z))
+        g = _try_build(run, "single", dict(zoom=z, mags=True) if z % 3 == 2 else dict(zoom=z))
+        if g is None:
+            continue
         run.count("grid-single")
         # exact expectation of the key list: all 4^z keys of length z (their order is not part of the property)
         if len(g.keys) != 4 ** z or len(set(g.keys)) != 4 ** z or any(len(k) != z or set(k) - set('0123') for k in g.keys):
@@ -995,15 +1331,21 @@ def run(run, rng, tier):
     # 2. catalog-driven refinement
     combos = [(k, t, z) for k in ("uniform", "clustered", "boundary") for t in (0, 1, 5, 50) for z in range(1, 10)]
     if not thorough:
-        combos = rng.sample(combos, 36) + [("boundary", 0, 9), ("clustered", 1, 9), ("boundary", 1, 3)]
+        combos = rng.sample(combos, 34) + [("boundary", 0, 9), ("clustered", 1, 9), ("boundary", 1, 3)]
     else:
         combos = combos * 3
+    # the documented default `zoom=11` (zoom None = argument not passed): few events, so the grids stay small
+    combos += [("clustered", 5, None), ("boundary", 1, None)] * (3 if thorough else 1)
     for kind, thr, zoom in combos:
         n = rng.choice([0, 1, 2, 7, 40, 150, 400] + ([1500] if thorough else [])) if kind != "boundary" \
             else rng.choice([3, 12, 60, 200] + ([800] if thorough else []))
-        ev = gen_events(rng, kind, n, zoom)
-        g = _build("catalog", dict(threshold=thr, zoom=zoom, events=[[hexs(a), hexs(b)] for a, b in ev], gen=kind,
-                                   **(dict(mags=True) if rng.random() < 0.25 else {})))
+        if zoom is None:
+            n = rng.choice([6, 12, 30])
+        ev = gen_events(rng, kind, n, zoom if zoom is not None else 11)
+        g = _try_build(run, "catalog", dict(threshold=thr, zoom=zoom, events=[[hexs(a), hexs(b)] for a, b in ev], gen=kind,
+                                            **(dict(mags=True) if rng.random() < 0.25 else {})))
+        if g is None:
+            continue
         run.count("grid-catalog-" + kind)
         check_refinement(run, drv, pend, g)
         run_grid(run, drv, pend, g, rng, 500 if thorough else 120, True, cart_limit=CL)
@@ -1019,11 +1361,16 @@ def run(run, rng, tier):
         if nested and i % 10 == 9:
             # the root key '' (mercantile: the whole square) among its descendants: first listed cell wins
             keys.insert(rng.randrange(1, len(keys) + 1), "")
-        g = _build("quadkeys", dict(keys=keys, nested=nested, **(dict(mags=True) if i % 4 == 1 else {})))
+        g = _try_build(run, "quadkeys", dict(keys=keys, nested=nested, **(dict(mags=True) if i % 4 == 1 else {})))
+        if g is None:
+            continue
         run.count("grid-quadkeys-nested" if nested else "grid-quadkeys")
         sk = sorted(set(keys))
         pf = len(set(keys)) == len(keys) and not any(sk[j + 1].startswith(sk[j]) for j in range(len(sk) - 1))
         run_grid(run, drv, pend, g, rng, 300 if thorough else 150, False, prefix_free=pf, cart_limit=CL)
+    # 3a. more than 2^16 cells
+    for _ in range(3 if thorough else 1):
+        check_big(run, drv, pend, rng)
     # 3b. geographical_area_from_bounds on arbitrary bounds
     check_geoarea(run, drv, pend, rng, 4000 if thorough else 400)
     # 4. the shipped California grid
@@ -1047,14 +1394,26 @@ def replay(run, payload, _drv=None):
         if not _drv:
             flush(run, drv, pend)
         return
-    g = _build(case["kind"], case["params"])
-    partition = case["kind"] in ("single", "catalog")
+    if case.get("kind") == "bigkeys" and case.get("check") in ("big", "build"):
+        check_big(run, drv, pend, None, seed=case["params"]["seed"])
+        if not _drv:
+            flush(run, drv, pend)
+        return
+    g = _try_build(run, case["kind"], case["params"])
+    if g is None:
+        return
+    partition = case["kind"] in ("single", "catalog", "bigkeys")
     keys = g.keys
     sk = sorted(set(keys))
     pf = len(set(keys)) == len(keys) and not any(sk[j + 1].startswith(sk[j]) for j in range(len(sk) - 1))
     check_structure(run, drv, pend, g, partition)
     if case.get("check") == "cartesian":
         check_cartesian(run, drv, pend, g, partition, pf, 2e7)
+    if case.get("check") == "session" and "ops" in case:
+        check_session(run, drv, pend, g, None, 0, ops=case["ops"])
+        if not _drv:
+            flush(run, drv, pend)
+        return
     if case.get("check") == "api":
         check_api(run, drv, pend, g, None, pf, indices=case.get("indices"))
     if case.get("check") == "order" and "points" in case:
